@@ -672,7 +672,9 @@ class CSSStyleSheet(cssutils.stylesheets.StyleSheet):
                 index = 0
                 # always first and only
                 if self._cssRules and self._cssRules[0].type == rule.CHARSET_RULE:
+                    # rule itself is not inserted, so it gets no parent
                     self._cssRules[0].encoding = rule.encoding
+                    return index
                 else:
                     self._cssRules.insert(0, rule)
             elif index != 0 or (
@@ -808,14 +810,19 @@ class CSSStyleSheet(cssutils.stylesheets.StyleSheet):
                         )
                         return
 
-            if not (
+            if (
                 rule.prefix in self.namespaces
                 and self.namespaces[rule.prefix] == rule.namespaceURI
             ):
-                # no doublettes
-                self._cssRules.insert(index, rule)
-                if _clean:
-                    self._cleanNamespaces()
+                # no doublettes: rule is not inserted, so it gets no parent
+                return index
+
+            self._cssRules.insert(index, rule)
+            if _clean:
+                self._cleanNamespaces()
+                if not any(r is rule for r in self._cssRules):
+                    # not effective and removed again (and detached)
+                    return index
 
         # @variables
         elif rule.type == rule.VARIABLES_RULE:
